@@ -368,9 +368,22 @@ def histCheck (ps : List Nat) : Prog → Nat → Bool × Option Nat
         match histCheck ps rest J with
         | (ok₃, r₃) => (ok₁ && ok₂ && ok₃, r₃)
 
-/-- A `fit` summary is history free when it never looks at a non-parameter attribute of `self`
-that it has not itself (certainly) written before in the same call. -/
-def HistoryFree (S : Summary) : Bool := (histCheck S.params S.body 0).1
+/-- bit set of every attribute the program may write (on some path) -/
+def mayWrite : Prog → Nat
+  | .skip => 0
+  | .abort => 0
+  | .seq (.writeAttr a _) rest => 2 ^ a ||| mayWrite rest
+  | .seq _ rest => mayWrite rest
+  | .ite t e rest => mayWrite t ||| mayWrite e ||| mayWrite rest
+
+/-- A `fit` summary is history free when (i) it never looks at a non-parameter attribute of `self`
+that it has not itself (certainly) written before in the same call, and (ii) every attribute it may
+write is certainly written on every normal exit (no conditional write can leave a value of an
+earlier fit in place). -/
+def HistoryFree (S : Summary) : Bool :=
+  match histCheck S.params S.body 0 with
+  | (ok, none) => ok
+  | (ok, some W) => ok && (mayWrite S.body &&& W == mayWrite S.body)
 
 /-- Data-flow semantics for history-freeness: the object is its attribute map; every value the
 method computes (`val`) and every branch it takes (`cond`) is an arbitrary function of the program
